@@ -6,9 +6,18 @@ C20 — model of `etl::pair` (include/etl/_utility/pair.hpp), `etl::tuple` and i
 
 Values.  An element is a pair (kind, value).  The kind says how the C++ element type reacts to
 copy and move (`int`, an instrumented copyable+movable class, a move-only class, a copy-only class,
-`int&`, `int const`); what a *move* leaves behind (`residue`) and how many *copy* operations an
+`int&`, `int const`, and - for pair - a reference / const reference to the instrumented class);
+what a *move* leaves behind (`residue`) and how many *copy* operations an
 operation performs are observables of the harness, so "an rvalue is forwarded as an rvalue" is a
 statement about values here: a moved-from instrumented element reads -1, a copied one is counted.
+
+Reference kinds.  CONSTRUCTING an element of reference kind binds the reference: nothing is copied,
+nothing is moved from (`copyCost` = `moveCost` = 0, `residue` keeps the value).  ASSIGNING to one
+assigns through it to the referent, and an element of reference kind that is handed on with
+`forward<T&>(p.first)` is an lvalue: the referent is copy-assigned (counted for the instrumented
+class) and keeps its value.  Hence the cost of an assignment (`assignCost`, `moveAssignCost`) is a
+different function of the kind than the cost of a construction (`copyCost`, `moveCost`); the two agree on
+every kind that is not a reference to the instrumented class.
 
 Calls.  A call of an instrumented target appends one `Call` to a log: the target, the value
 category through which the target object itself was called, and per argument the value category
@@ -32,32 +41,90 @@ inductive EK where
   | co    -- copy-only class: no move operations declared, an rvalue is copied (counted)
   | ref   -- `int&`
   | cst   -- `int const`
+  | tref  -- `Trk&`: reference to an object of the instrumented class (pair lines only)
+  | tcref -- `Trk const&`: const reference to an object of the instrumented class (pair lines only)
   deriving Repr, DecidableEq, Inhabited
 
-/-- value left in an element that has been moved from -/
+/-- value left in the object an element designates after the element has been handed on as
+    `forward<T>(element)` / `move(member)` to a constructor or an assignment: an rvalue of the instrumented
+    or the move-only class is moved from; for a reference kind `forward<T&>` is an lvalue and the referent
+    keeps its value -/
 def EK.residue : EK → Int → Int
   | .trk, _ => -1
   | .mo, _ => -1
   | _, v => v
 
-/-- counted copy operations performed by one copy construction / copy assignment -/
+/-- counted copy operations performed by one copy CONSTRUCTION of an element (a reference element is bound:
+    no copy) -/
 def EK.copyCost : EK → Nat
   | .trk => 1
   | .co => 1
   | _ => 0
 
-/-- counted copy operations performed by one move construction / move assignment -/
+/-- counted copy operations performed by one move CONSTRUCTION of an element (`first(forward<U1>(p.first))`;
+    a reference element is bound: no copy) -/
 def EK.moveCost : EK → Nat
   | .co => 1
+  | _ => 0
+
+/-- counted copy operations performed by one copy ASSIGNMENT `first = p.first` from an element of this kind
+    (a reference element is assigned through: the referent is copy-assigned) -/
+def EK.assignCost : EK → Nat
+  | .trk => 1
+  | .co => 1
+  | .tref => 1
+  | .tcref => 1
+  | _ => 0
+
+/-- counted copy operations performed by one move ASSIGNMENT `first = forward<T>(p.first)` from an element of
+    this kind: the copy-only class copies, and for a reference kind `forward<T&>(p.first)` is an lvalue, so the
+    referent is copy-assigned -/
+def EK.moveAssignCost : EK → Nat
+  | .co => 1
+  | .tref => 1
+  | .tcref => 1
   | _ => 0
 
 def EK.copyable : EK → Bool
   | .mo => false
   | _ => true
 
+/-- `is_assignable_v<T&, ...>` can hold at all: not for a const object or a reference to const -/
 def EK.assignable : EK → Bool
   | .cst => false
+  | .tcref => false
   | _ => true
+
+/-- the class of the object an element of this kind is or refers to -/
+inductive Base where
+  | int | trk | mo | co
+  deriving Repr, DecidableEq, Inhabited
+
+def EK.base : EK → Base
+  | .int | .ref | .cst => .int
+  | .trk | .tref | .tcref => .trk
+  | .mo => .mo
+  | .co => .co
+
+/-- `forward<U>(p.first)` for an element of kind `U` is an rvalue unless `U` is a reference -/
+def EK.forwardsRvalue : EK → Bool
+  | .ref | .tref | .tcref => false
+  | _ => true
+
+/-- `x = e` where `x` is an object of class `b` (a member, or the referent of a reference member) and `e`
+    designates an object of the same class holding `y`, as an rvalue (`rv`) or as an lvalue: what the
+    assignment operator of the class leaves in the source, and the copies it counts.
+    (`Trk::operator=(Trk&&)` moves, `Trk::operator=(Trk const&)` copies and counts; the copy-only class has
+    only the counted copy assignment; the move-only class has only the move assignment - an lvalue of it is
+    not assignable, the drivers never ask.) -/
+def Base.assignFrom (b : Base) (rv : Bool) (y : Int) : Int × Nat :=
+  match b, rv with
+  | .int, _ => (y, 0)
+  | .trk, true => (-1, 0)
+  | .trk, false => (y, 1)
+  | .mo, true => (-1, 0)
+  | .mo, false => (y, 0)
+  | .co, _ => (y, 1)
 
 /-- `T x = static_cast<T const&&>(y)`: a const rvalue can only be copied -/
 abbrev El := EK × Int
@@ -92,15 +159,42 @@ abbrev El2 := EK × Int × Int
 /-- `first = p.first; second = p.second;` — new value of `a`, copies -/
 def assignAll : List El2 → List Int × Nat
   | [] => ([], 0)
-  | (k, _, y) :: t => let r := assignAll t; (y :: r.1, k.copyCost + r.2)
+  | (k, _, y) :: t => let r := assignAll t; (y :: r.1, k.assignCost + r.2)
 
-/-- `first = move(p.first); second = move(p.second);` — new `a`, new `b`, copies -/
+/-- `first = forward<first_type>(p.first); second = forward<second_type>(p.second);` (pair, after the `fix:`
+    commits of round C20s) / `get<I>(*this) = get<I>(move(other))` (tuple) — new `a`, new `b`, copies -/
 def moveAssignAll : List El2 → List Int × List Int × Nat
   | [] => ([], [], 0)
-  | (k, _, y) :: t => let r := moveAssignAll t; (y :: r.1, k.residue y :: r.2.1, k.moveCost + r.2.2)
+  | (k, _, y) :: t => let r := moveAssignAll t; (y :: r.1, k.residue y :: r.2.1, k.moveAssignCost + r.2.2)
+
+/-- an element of `a` of kind `kd` (destination) together with the element of `b` of kind `ks` (source) at the
+    same index: (kd, ks, x, y).  The destination kind selects nothing observable - whether `first` is a member or
+    a reference to an object, the assignment operator of the class runs on it - it is carried for the
+    applicability predicate of the driver (`is_assignable_v<T1&, U1 const&>` / `is_assignable_v<T1&, U1>`). -/
+abbrev ElX := EK × EK × Int × Int
+
+/-- converting copy assignment `pair<T1,T2>::operator=(pair<U1,U2> const& p)`: `first = p.first; second = p.second;`
+    — `p.first` is an lvalue whatever `U1` is; new value of `a`, copies -/
+def convAssignAll : List ElX → List Int × Nat
+  | [] => ([], 0)
+  | (_, ks, _, y) :: t =>
+    let e := ks.base.assignFrom false y
+    let r := convAssignAll t
+    (y :: r.1, e.2 + r.2)
+
+/-- converting move assignment `pair<T1,T2>::operator=(pair<U1,U2>&& p)`:
+    `first = forward<U1>(p.first); second = forward<U2>(p.second);` (after the `fix:` commits of round C20s;
+    before them `move(p.first)`, which moved from the referent of a reference element) — new `a`, new `b`, copies -/
+def convMoveAssignAll : List ElX → List Int × List Int × Nat
+  | [] => ([], [], 0)
+  | (_, ks, _, y) :: t =>
+    let e := ks.base.assignFrom ks.forwardsRvalue y
+    let r := convMoveAssignAll t
+    (y :: r.1, e.1 :: r.2.1, e.2 + r.2.2)
 
 /-- `etl::swap(x, y)`: `T temp(move(x)); x = move(y); y = move(temp);` on one element:
-    new x, new y, copies -/
+    new x, new y, copies.  (For a reference element `x`, `y` are the referents and `T` is their class: three moves
+    of the instrumented class, no copy - `moveCost` is 0 for the reference kinds.) -/
 def swapElem (k : EK) (x y : Int) : Int × Int × Nat :=
   let temp := x                 -- T temp(move(x));  x now holds k.residue x
   let x1 := y                   -- x = move(y);      y now holds k.residue y
@@ -181,17 +275,19 @@ def concat (t1 t2 : List Int) : Except Err (List Int) := do
   let b ← getAll t2
   .ok (a ++ b)
 
-/-- `detail::tuple_cat::operator()(result, head, tail...)` = `(*this)(concat(result, head), tail...)`;
-    `operator()(result)` = `tuple{get<Is>(result)...}` -/
+/-- `detail::tuple_cat::run<R>(result, head, tail...)` = `run<R>(concat(result, head), tail...)`;
+    `run<R>(result)` = `R(get<Is>(forward<Result>(result))...)` -/
 def catGo (result : List Int) : List (List Int) → Except Err (List Int)
   | [] => getAll result
   | head :: tail => do
     let r ← concat result head
     catGo r tail
 
-/-- `etl::tuple_cat(ts...)` = `detail::tuple_cat(ts...)`; there is no overload for zero tuples -/
+/-- `etl::tuple_cat(ts...)`: `if constexpr (sizeof...(Tuples) == 0) return tuple<>{};` else
+    `detail::tuple_cat.run<result_t>(ts...)` (the result TYPE `result_t` is computed from the declared element types of the
+    arguments — outside this value-level model; checked by the `typeq q=tuple_cat_*` lines and the static_assert matrix) -/
 def tupleCat : List (List Int) → Except Err (List Int)
-  | [] => .error (.pre "tuple_cat: at least one tuple")
+  | [] => .ok []
   | t :: ts => catGo t ts
 
 /-! ## calls -/
@@ -399,6 +495,47 @@ def refCallAfter {ρ : Type} (ops : List RefOp) (w : Nat) (call : Nat → Except
 /-- `etl::make_from_tuple<T>(t)` = `T(get<I>(forward<Tuple>(t))...)`: the constructor arguments in order -/
 def makeFromTuple (t : List Int) : Except Err (List Int) := getAll t
 
+/-! ### make_from_tuple: which constructor of the target type receives the elements
+
+`T(x...)` (parentheses: direct-non-list-initialisation) and `T{x...}` (braces: direct-list-initialisation) are different
+initialisations for some target types.  The header writes PARENTHESES.  Target kinds of the harness (all elements are `int`
+unless said otherwise, arity 0..3): -/
+inductive Target where
+  | plain       -- constructors `T()`, `T(int)`, `T(int,int)`, `T(int,int,int)`
+  | il          -- those and `T(initializer_list<int>)`
+  | ilWide      -- those and `T(initializer_list<long>)` (`int` → `long` is not a narrowing conversion)
+  | ilOther     -- those and `T(initializer_list<Tag>)`, `Tag` not constructible from `int`
+  | agg         -- an aggregate `struct { int a, b, c; }`
+  | expl        -- the constructors of `plain`, all `explicit`
+  | aggNarrow   -- the aggregate, the tuple elements are `long` (`long` → `int` narrows)
+  | ctorNarrow  -- constructors taking `short`s, the tuple elements are `int` (`int` → `short` narrows)
+  deriving Repr, DecidableEq, Inhabited
+
+/-- how the target object was initialised -/
+inductive Built where
+  | ctor (args : List Int)      -- a constructor with one parameter per argument received them (aggregate: the members, in order)
+  | list (elems : List Int)     -- the `initializer_list` constructor received them as one list
+  | illFormed                   -- the initialisation does not compile
+  deriving Repr, DecidableEq, Inhabited
+
+/-- the members of the three-`int` aggregate initialised from `args`; members without an initialiser are value-initialised -/
+def aggMembers (args : List Int) : Except Err Built :=
+  if args.length ≤ 3 then .ok (.ctor (args ++ List.replicate (3 - args.length) 0))
+  else .error (.pre "aggregate: more initialisers than members")
+
+/-- `T(args...)`: the constructors are enumerated and overload resolution picks by the argument list ([dcl.init.general] 16.6.2);
+    an `initializer_list` constructor has ONE parameter and no `int` converts to it, so it never takes two or three arguments and
+    loses to `T(int)` for one; narrowing conversions are allowed; an aggregate is initialised member by member (C++20, 16.6.2.2) -/
+def parenInit (tg : Target) (args : List Int) : Except Err Built :=
+  match tg with
+  | .agg | .aggNarrow => aggMembers args
+  | _ => if args.length ≤ 3 then .ok (.ctor args) else .error (.pre "no constructor takes that many arguments")
+
+/-- `etl::make_from_tuple<T>(t)` for a target kind: `T(get<I>(forward<Tuple>(t))...)` — parentheses -/
+def makeFromTupleT (tg : Target) (t : List Int) : Except Err Built := do
+  let xs ← getAll t
+  parenInit tg xs
+
 /-! ## inplace_function -/
 
 /-- a stored callable: closure type, captured id, number of calls made through this copy -/
@@ -534,6 +671,48 @@ def assignFn (s : St) (a : Addr) (f : Fn) : Except Err St := do
   let s1 ← ctorFn s .tmp f
   assignBody s1 a
 
+/-! ### construction / assignment from another inplace_function: which constructor is selected
+
+The source is an `inplace_function` expression — of the same specialisation, or (`conv`) of another one with a capacity and an
+alignment the destination accepts (`is_valid_inplace_destination`; any other combination is a `static_assert` failure, i.e. not
+a program).  Three constructors compete:
+
+* the closure constructor `template <typename T, typename C = decay_t<T>> inplace_function(T&& closure)` — it is constrained by
+  `requires(!detail::is_inplace_function<C>::value && …)`, false for EVERY specialisation of `inplace_function` (not only for the
+  destination's own type), so it is never viable for such a source, whatever its category;
+* `inplace_function(inplace_function&&)` / `inplace_function(inplace_function<R(Args...), Cap, Align>&&)` — a non-const rvalue
+  reference: binds an rvalue of non-const type only;
+* `inplace_function(inplace_function const&)` / `inplace_function(inplace_function<R(Args...), Cap, Align> const&)` — binds every
+  category; for a non-const rvalue the `&&` overload is the better match.
+
+`operator=(inplace_function other)` takes its parameter by value: the parameter is initialised by the same selection (for another
+specialisation through the implicit conversion the converting constructors provide), then relocated into `*this`. -/
+
+/-- the constructor that initialises an `inplace_function` from an `inplace_function` expression -/
+inductive Sel where
+  | copy      -- `(… const&)`: `copy_ptr`
+  | move      -- `(…&&)`: `relocate_ptr`, the source's vtable becomes the empty one
+  deriving Repr, DecidableEq, Inhabited
+
+/-- overload resolution by the category of the source expression -/
+def selectCtor : Cat → Sel
+  | .r => .move          -- non-const rvalue: `&&` beats `const&`
+  | .l => .copy          -- non-const lvalue: only `const&` is viable (the closure constructor is constrained away)
+  | .c => .copy          -- const lvalue
+  | .k => .copy          -- const rvalue: `&&` of non-const type does not bind
+
+/-- `inplace_function dst(src)` with `src` of category `q` -/
+def ctorFrom (s : St) (a o : Addr) (conv : Bool) (q : Cat) : Except Err St :=
+  match selectCtor q with
+  | .copy => if conv then ctorConvCopy s a o else ctorCopy s a o
+  | .move => if conv then ctorConvMove s a o else ctorMove s a o
+
+/-- `dst = src` with `src` of category `q` -/
+def assignFrom (s : St) (a o : Addr) (conv : Bool) (q : Cat) : Except Err St :=
+  match selectCtor q with
+  | .copy => assignCopy s a o conv
+  | .move => assignMove s a o conv
+
 /-- `swap(other)`: `if (this == &other) return;` (fix-c20), `tmp` buffer,
     `_vtable->relocate_ptr(&tmp, &_storage); other._vtable->relocate_ptr(&_storage, &other._storage);
      _vtable->relocate_ptr(&other._storage, &tmp); swap(_vtable, other._vtable);` -/
@@ -573,10 +752,8 @@ def toBool (s : St) (a : Addr) : Bool := (s.vt a).isSome
 inductive Op where
   | ctorEmpty (i : Nat)
   | ctorFn (i : Nat) (f : Fn)
-  | ctorCopy (i j : Nat) (conv : Bool)
-  | ctorMove (i j : Nat) (conv : Bool)
-  | assignCopy (i j : Nat) (conv : Bool)
-  | assignMove (i j : Nat) (conv : Bool)
+  | ctorFrom (i j : Nat) (conv : Bool) (q : Cat)    -- `F i(<j as an expression of category q>)`; conv: another specialisation
+  | assignFrom (i j : Nat) (conv : Bool) (q : Cat)  -- `i = <j as an expression of category q>`
   | assignFn (i : Nat) (f : Fn)
   | assignNull (i : Nat)
   | swap (i j : Nat)
@@ -602,16 +779,11 @@ def step (s : St) : Op → Except Err (St × Out × Log)
     let s1 ← dtor s (.obj i)
     let s2 ← ctorFn s1 (.obj i) f
     .ok (s2, .unit, [])
-  | .ctorCopy i j conv => do
+  | .ctorFrom i j conv q => do
     let s1 ← dtor s (.obj i)
-    let s2 ← if conv then ctorConvCopy s1 (.obj i) (.obj j) else ctorCopy s1 (.obj i) (.obj j)
+    let s2 ← ctorFrom s1 (.obj i) (.obj j) conv q
     .ok (s2, .unit, [])
-  | .ctorMove i j conv => do
-    let s1 ← dtor s (.obj i)
-    let s2 ← if conv then ctorConvMove s1 (.obj i) (.obj j) else ctorMove s1 (.obj i) (.obj j)
-    .ok (s2, .unit, [])
-  | .assignCopy i j conv => do .ok (← assignCopy s (.obj i) (.obj j) conv, .unit, [])
-  | .assignMove i j conv => do .ok (← assignMove s (.obj i) (.obj j) conv, .unit, [])
+  | .assignFrom i j conv q => do .ok (← assignFrom s (.obj i) (.obj j) conv q, .unit, [])
   | .assignFn i f => do .ok (← assignFn s (.obj i) f, .unit, [])
   | .assignNull i => do .ok (← assignNull s (.obj i), .unit, [])
   | .swap i j => do .ok (← swap s (.obj i) (.obj j), .unit, [])
